@@ -48,6 +48,37 @@ theorem bodyless_ends_on_headers (C : Codec) (s : C.S) (p : Plan) (r : Req) (h :
     (clientFrames C s p r).1 = writeHeaderBlock p.sid true p.maxHdr (C.enc s (reqFields r)).1 := by
   simp [clientFrames, encodeFrames, clientNorm, Req.earlyEnd, h, chunks_nil]
 
+/-! ### SETTINGS_MAX_HEADER_LIST_SIZE: a header list within the advertised limit is never truncated -/
+
+/-- the receiver's size accounting (`readMetaFrame`) keeps the whole list iff its RFC size is at
+most the advertised limit — in particular a list of EXACTLY the limit is delivered. -/
+theorem sizeLoop_isSome_iff : ∀ (fs : List Field) (limit : Nat),
+    (sizeLoop limit fs).isSome = true ↔ headerListSize fs ≤ limit
+  | [], limit => by simp [sizeLoop, headerListSize]
+  | f :: fs, limit => by
+    unfold sizeLoop headerListSize
+    split
+    · simp; omega
+    · rw [sizeLoop_isSome_iff fs]; omega
+
+theorem sizeLoop_at_limit (fs : List Field) : sizeLoop (headerListSize fs) fs = some 0 := by
+  induction fs with
+  | nil => rfl
+  | cons f fs ih =>
+    unfold sizeLoop headerListSize
+    have : ¬ (f.name.length + f.value.length + 32 > f.name.length + f.value.length + 32 + headerListSize fs) := by omega
+    simp only [this, ↓reduceIte]
+    have h2 : f.name.length + f.value.length + 32 + headerListSize fs - (f.name.length + f.value.length + 32)
+        = headerListSize fs := by omega
+    rw [h2, ih]
+
+/-- whatever the Transport does send (`clientRefuses = false`) fits the server's accounting. -/
+theorem sent_request_not_truncated (r : Req) (limit : Nat) (hl : 0 < limit)
+    (h : clientRefuses r limit = false) : (sizeLoop limit (clientNorm r).headers).isSome = true := by
+  rw [sizeLoop_isSome_iff]
+  simp [clientRefuses, hl] at h
+  simpa [clientNorm] using h
+
 /-- the former witness of `full_false`: a POST without body announcing one trailer. -/
 def witnessReq : Req :=
   { method := str "POST", scheme := str "https", host := [], uhost := str "example.com", path := str "/",
